@@ -279,6 +279,10 @@ static int32 psParseIntegrityMode(const unsigned char **buf, int32 totLen)
 
     Assumptions:  hash is SHA-1, password is < 128 bytes
  */
+#    ifndef PKCS12_MAX_ITERATIONS
+/* Upper bound for the iteration count taken from a PKCS#12 file */
+#     define PKCS12_MAX_ITERATIONS 100000
+#    endif
 static int32 pkcs12pbe(psPool_t *pool, unsigned char *password, uint32 passLen,
     unsigned char *salt, int saltLen, int32 iter, int32 id,
     unsigned char **out, uint32 *outlen)
@@ -294,6 +298,11 @@ static int32 pkcs12pbe(psPool_t *pool, unsigned char *password, uint32 passLen,
     if (saltLen < 1)
     {
         /* The fill loop below needs a salt (an empty one is not supported) */
+        return PS_UNSUPPORTED_FAIL;
+    }
+    if (iter > PKCS12_MAX_ITERATIONS)
+    {
+        psTraceIntCrypto("PKCS#12 iteration count %d above limit\n", iter);
         return PS_UNSUPPORTED_FAIL;
     }
     Memset(diversifier, id, 64);
